@@ -365,6 +365,17 @@ class Check(PropCheck):
                 if got != present:
                     return bad('presence', view, got, present)
             if lk in unknown:
+                # the stored value of a boolean-string attribute is not predicted here (its conversion is C19's), but every
+                # view must still report the one value the list views report
+                if present:
+                    lv = dict(lst).get(lk)
+                    node = e_dom.attributesDOM.getNamedItem(key)
+                    for view, got in (('attributes[%r]' % key, e_item.attributes[key]),
+                                      ('attributes.get(%r, dflt)' % key, e_get.attributes.get(key, 'dflt')),
+                                      ('getAttribute(%r)' % key, e_attr.getAttribute(key)),
+                                      ('attributesDOM.getNamedItem(%r)' % key, None if node is None else node.value)):
+                        if got != lv:
+                            return ('views-disagree', '%s: %s gives %r, getAttributesList() gives %r' % (where, view, got, lv))
                 continue
             got = e_item.attributes[key]
             if got != val:
@@ -417,6 +428,10 @@ class Check(PropCheck):
                 rendered.append((a, v))
         if strip(toks) != strip(rendered):
             return bad('html', 'the rendered start tag %r' % html, strip(toks), strip(rendered))
+        for a, v in toks:
+            if a in unknown and v is not None and v != dict(lst).get(a):
+                return ('views-disagree', '%s: the rendered start tag %r gives %s=%r, getAttributesList() gives %r'
+                        % (where, html, a, v, dict(lst).get(a)))
         if [a for a, _ in toks] != full_order:
             return bad('order', 'the rendered start tag %r' % html, [a for a, _ in toks], full_order)
         rp = AC.reparse(fresh())
